@@ -3,12 +3,9 @@ import SqiProofs.C17.Sqrt2
 namespace SqiProofs.C17
 open SqiModel.Intbig
 
-/-- p = 2: the routine never returns a root: it reports failure for even a and aborts for odd a -/
-theorem sqrtModP_two (a : Int) : ibzSqrtModP a 2 = if a % 2 = 0 then .fail else .ub := by
-  have h : a % 2 = 0 ∨ a % 2 = 1 := by omega
-  rcases h with h | h
-  · simp only [ibzSqrtModP, h]; decide
-  · simp only [ibzSqrtModP, h]; decide
+/-- p = 2 (repaired code): the root is a mod 2 -/
+theorem sqrtModP_two (a : Int) : ibzSqrtModP a 2 = .ok (a % 2) := by
+  simp [ibzSqrtModP]
 
 section
 variable (pn : Nat) [hpF : Fact pn.Prime]
@@ -38,7 +35,12 @@ theorem sqrtModP_ok_of_jacobi (hp2 : pn ≠ 2) (a : Int) (hj : (a : F) ^ (pn / 2
   have hj1 : jacobiP (a % (pn : Int)) pn = 1 := by rw [jacobiP_eq_one_iff pn hp2, hamod]; exact hj
   have hrange : ∀ b e, 0 ≤ powm b e pn ∧ powm b e pn < (pn : Int) := by
     intro b e; have := powm_range b e pn hpI; simpa using this
-  simp only [ibzSqrtModP, hj1, ne_eq, not_true_eq_false, if_false]
+  have hne : ¬ (a % (pn : Int) = 0 ∨ (pn : Int) = 2) := by
+    rintro (h0 | h2)
+    · have : (a : F) = 0 := by rw [← hamod, h0]; simp
+      rw [this, zero_pow (by omega)] at hj; exact zero_ne_one hj
+    · exact pn_int_ne_two pn hp2 h2
+  simp only [ibzSqrtModP, hne, hj1, ne_eq, not_true_eq_false, if_false]
   by_cases h4 : (pn : Int) % 4 = 3
   · -- p ≡ 3 (mod 4)
     simp only [h4, if_true]
@@ -129,12 +131,21 @@ theorem sqrtModP_ok_of_jacobi (hp2 : pn ≠ 2) (a : Int) (hj : (a : F) ^ (pn / 2
         subst this; simp
       · intro h; omega
 
-/-- odd prime, Legendre test failed: the routine reports failure -/
-theorem sqrtModP_fail_of_jacobi (hp2 : pn ≠ 2) (a : Int) (hj : (a : F) ^ (pn / 2) ≠ 1) :
+/-- a ≡ 0 (mod p): the root 0 is returned (any prime) -/
+theorem sqrtModP_zero (a : Int) (h0 : (a : F) = 0) : ibzSqrtModP a pn = .ok 0 := by
+  have : a % (pn : Int) = 0 := Int.emod_eq_zero_of_dvd ((ZMod.intCast_zmod_eq_zero_iff_dvd a pn).mp h0)
+  simp [ibzSqrtModP, this]
+
+/-- odd prime, a ≢ 0, Legendre test failed: the routine reports failure -/
+theorem sqrtModP_fail_of_jacobi (hp2 : pn ≠ 2) (a : Int) (h0 : (a : F) ≠ 0) (hj : (a : F) ^ (pn / 2) ≠ 1) :
     ibzSqrtModP a pn = .fail := by
   have hamod : ((a % (pn : Int) : Int) : F) = (a : F) := emod_cast pn a
   have hj1 : jacobiP (a % (pn : Int)) pn ≠ 1 := by rw [ne_eq, jacobiP_eq_one_iff pn hp2, hamod]; exact hj
-  simp only [ibzSqrtModP, hj1, ne_eq, not_false_eq_true, if_true]
+  have hne : ¬ (a % (pn : Int) = 0 ∨ (pn : Int) = 2) := by
+    rintro (h | h2)
+    · apply h0; rw [← hamod, h]; simp
+    · exact pn_int_ne_two pn hp2 h2
+  simp only [ibzSqrtModP, hne, hj1, ne_eq, not_false_eq_true, if_true, if_false]
 
 end
 end SqiProofs.C17
